@@ -1400,6 +1400,29 @@ func (w *Writer) computeDynamicArrayLength(baseHandle ir.ExpressionHandle, strid
 		return boundsCheckLength{kind: boundsLengthNone}
 	}
 	expr := &w.currentFunction.Expressions[baseHandle]
+	// The global may itself be the runtime-sized array (`var<storage> a: array<atomic<u32>>`):
+	// it starts at offset 0 of its binding.
+	if bare, isGlobal := expr.Kind.(ir.ExprGlobalVariable); isGlobal {
+		for i, h := range w.bufferSizeGlobals {
+			if h != uint32(bare.Variable) || int(bare.Variable) >= len(w.module.GlobalVariables) {
+				continue
+			}
+			ty := w.module.GlobalVariables[bare.Variable].Type
+			if int(ty) >= len(w.module.Types) {
+				break
+			}
+			arrType, isArr := w.module.Types[ty].Inner.(ir.ArrayType)
+			if !isArr || arrType.Size.Constant != nil {
+				break
+			}
+			elementSize := w.typeSize(arrType.Base)
+			if elementSize == 0 {
+				elementSize = stride
+			}
+			return boundsCheckLength{kind: boundsLengthDynamic, dynamicGlobal: uint32(i), memberOffset: 0, elementSize: elementSize, stride: stride}
+		}
+		return boundsCheckLength{kind: boundsLengthNone}
+	}
 	accessIdx, ok := expr.Kind.(ir.ExprAccessIndex)
 	if !ok {
 		return boundsCheckLength{kind: boundsLengthNone}
